@@ -216,7 +216,9 @@ def run(cx, out):
                     why3.append('in-place branch does not overwrite the prefix once')
                 else:
                     dst, srcv = sym.vstr(inpl[0][3][0]), strip(inpl[0][3][1])
-                    if dst != 'index_mut(sinkvec, RangeTo::RangeTo{0: compact_len(%s)})' % old:
+                    sv_ = slice_view(inpl[0][3][0])
+                    if dst != 'index_mut(sinkvec, RangeTo::RangeTo{0: compact_len(%s)})' % old and \
+                            not (sv_ is not None and view_str(sv_) in ('sinkvec[0..compact_len(%s)]' % old, 'sinkvec[0:usize..compact_len(%s)]' % old)):
                         why3.append('in-place branch does not overwrite exactly vec[..old_prefix_len]: ' + dst[:120])
                     if not (isinstance(srcv, tuple) and srcv[0] == 'cbarg' and srcv[1] == 'compact::Compact<u32>' and 'checked_add' in sym.vstr(srcv[2])):
                         why3.append('in-place branch does not write the encoding of Compact(new count)')
